@@ -9,6 +9,15 @@ TB = ("trusted base: rustc's MIR construction and Instance resolution for the re
       "mir-opt-level 0, overflow checks on), the fact extractor /verif/driver, std/rpds/arcstr behaving as documented")
 
 CLAIMS = {
+ 'C06': dict(
+   technique="MIR who-may-write on heap cells via CellRef provenance + control-dependence + path ordering (custom rustc_private extractor, Python rules)",
+   text=("Static, all parsing words x all paths: only move_offset_checked/open/close write the cursor cells and only commit_read/seek move the "
+         "offset; the offset write is control-dependent on start<=pos<=end of the current input (so it always stays inside); commit_read tests the "
+         "stack limit before moving and nothing fallible follows the move (a failing read leaves the cursor untouched); every peeking word ends "
+         "every Ok path in commit_read with end = end of the peeked slice and a value computed from that slice (moves by exactly n); open/close "
+         "pair old input+offset in one stash element, LIFO, with no half-open state. Not decided: that substr yields bits [offset,offset+n) "
+         "(value-level, C04), remain/find arithmetic, huge arguments (C08)."),
+   ref='§3 C06'),
  'C10': dict(
    technique="MIR acquire/release path analysis on all `?`/error exits + control-dependence (custom rustc_private extractor, Python rules)",
    text=("Static, all error exits: from the Ok edge of context_open in every build entry, every path to a return that can carry an Err passes a "
